@@ -670,6 +670,35 @@ func (r *Runner) execSketch(cmd string, a []string) string {
 		}
 		e.inVer++
 		return "ok"
+	case "xpanic":
+		// xpanic <h> <encode|proto|foreach|chmap>: the generator saw this read-only operation panic
+		if len(a) != 2 {
+			return "bad-op"
+		}
+		e, bad := r.getSk(a[0])
+		if e == nil {
+			return bad
+		}
+		okp, msg := guard(func() {
+			switch a[1] {
+			case "encode":
+				encodeBytes(e, false)
+			case "proto":
+				protoBytes(e.sk())
+			default:
+				e.sk().GetPositiveValueStore().ForEach(func(int, float64) bool { return false })
+				e.sk().GetNegativeValueStore().ForEach(func(int, float64) bool { return false })
+			}
+		})
+		if !okp {
+			r.oracleFail("panic", a[1]+" of a sketch: "+msg)
+			return "panic"
+		}
+		if a[1] == "chmap" {
+			r.oracleFail("panic", "ChangeMapping panicked while the generator ran it")
+			return "panic"
+		}
+		return "ok"
 	case "fe":
 		if len(a) != 2 {
 			return "bad-op"
